@@ -142,9 +142,21 @@ def r18_2(ctx, R, memo):
                       "edge of try_push(last); new capacity = capacity(last) * c, c >= 2, or the minimum-capacity constant; "
                       "poll_next allocates only via Vec::push of the group just Vec::remove'd from the same vector")
     n = 0
+    UNB = r"(futures_unordered::FuturesUnordered|merge_unbounded::MergeUnbounded)"
     for b in ctx.facts.fn_bodies():
-        if not re.search(r"^(futures_unordered::FuturesUnordered|merge_unbounded::MergeUnbounded)::<\w+>::push$", b.path):
-            continue
+        is_push = re.search(r"^%s::<\w+>::push$" % UNB, b.path) is not None
+        if not is_push:
+            # any other function of the unbounded types that appends a freshly built group to the vector (an `extend`, an
+            # `append`, a `reserve` ...) is held to the same growth discipline; the constructors build the first group
+            if not re.search(r"^<?%s(::<|<)" % UNB, b.path) or b.kind == "Closure":
+                continue
+            if re.match(r"%s<" % UNB, b.locals[0]):
+                continue        # returns the collection itself: new / with_capacity / from_iter / default
+            builds = [1 for bb_, t_, fn_ in b.calls() if fn_ and not b.is_cleanup(bb_) and
+                      re.search(r"(FuturesUnorderedBounded|MergeBounded)::<.*>::(new|with_capacity)$|FromIterator", fn_name(fn_) or "")]
+            appends = [1 for bb_, t_, fn_ in direct_sites(b, r"alloc::vec::Vec::<.*>::(push|insert|extend|append)$")]
+            if not (builds and appends):
+                continue
         n += 1
         fl = ctx.flow(b)
         vf = variant_facts(b, fl)
@@ -304,4 +316,7 @@ def run(ctx):
     r18_1(ctx, R, memo)
     r18_2(ctx, R, memo)
     r18_3(ctx, R)
+    import c11
+    k = c11.group_removal_rule(ctx, R, "R18.3")
+    ctx.floor("R18.3", "group-removal-sites", k, 2)
     r18_4(ctx, R, memo)
